@@ -82,10 +82,22 @@ COMPANION = b"".join(refwire.encode_someip(dict(sid=0xC0 + i, mid=0x0C00 + i, ci
 DATAGRAM = refwire.encode_someip(dict(sid=0xD0D0, mid=0x0D0D, cid=0xDD, sess=0xD1, iv=0xD, mt=0x81, rc=4, payload=b"datagram"))
 
 
+_WRAPPERS = {}
+
+
 def read_stream(loop, H, chunks, schedule):
     """feed chunks into a real StreamReader and read message by message"""
     reader = asyncio.StreamReader(loop=loop)
-    R = H.SOMEIPReader(reader)
+    # every third stream is read through a wrapper object that served an earlier connection: the application assigned the new
+    # stream to its public `reader` attribute (a reconnect); the other streams get a wrapper of their own
+    _WRAPPERS["n"] = _WRAPPERS.get("n", 0) + 1
+    if _WRAPPERS["n"] % 3 == 0 and "R" in _WRAPPERS and schedule != "C":
+        R = _WRAPPERS["R"]
+        R.reader = reader
+    else:
+        R = H.SOMEIPReader(reader)
+        if schedule != "C":
+            _WRAPPERS["R"] = R
     results = []
 
     def consumer(R, results):
